@@ -798,6 +798,8 @@ impl World<Tok> {
         use matreex::Index;
         let op = format!("iteradapt {r} {variant} {adaptor}");
         out.announce(&op);
+        // parameterised adaptors: n<k>, nb<k>, nn<a>x<b> (nth(a) then nth(b)), ss<a>x<b> (skip(a).step_by(b))
+        let generic = !["n1", "nb1", "ss", "tr", "rs", "last", "count", "fold"].contains(&adaptor);
         let with_index = variant.contains("wi");
         let consuming = variant.starts_with("into");
         let (order, rf) = self.refs[r].clone().unwrap();
@@ -815,7 +817,19 @@ impl World<Tok> {
             ($it:expr, $f:expr) => {{
                 let it = $it;
                 let f = $f;
+                let num = |t: &str| t.parse::<usize>().unwrap();
+                let two = |t: &str| { let (a, b) = t.split_once('x').unwrap(); (num(a), num(b)) };
                 match adaptor {
+                    a if generic && a.starts_with("nb") => { let mut it = it; it.nth_back(num(&a[2..])).map(|x| f(x)).unwrap_or("-".into()) }
+                    a if generic && a.starts_with("nn") => {
+                        let (k1, k2) = two(&a[2..]);
+                        let mut it = it;
+                        let first = it.nth(k1).map(|x| f(x)).unwrap_or("-".into());
+                        let second = it.nth(k2).map(|x| f(x)).unwrap_or("-".into());
+                        format!("{first};{second}")
+                    }
+                    a if generic && a.starts_with('n') => { let mut it = it; it.nth(num(&a[1..])).map(|x| f(x)).unwrap_or("-".into()) }
+                    a if generic && a.starts_with("ss") => { let (k1, k2) = two(&a[2..]); format!("[{}]", it.skip(k1).step_by(k2).map(|x| f(x)).collect::<Vec<_>>().join(",")) }
                     "n1" => { let mut it = it; it.nth(1).map(|x| f(x)).unwrap_or("-".into()) }
                     "nb1" => { let mut it = it; it.nth_back(1).map(|x| f(x)).unwrap_or("-".into()) }
                     "ss" => format!("[{}]", it.skip(1).step_by(2).map(|x| f(x)).collect::<Vec<_>>().join(",")),
@@ -842,7 +856,13 @@ impl World<Tok> {
         let o = |x: Option<&String>| x.cloned().unwrap_or("-".into());
         let l = |x: Vec<&String>| format!("[{}]", x.into_iter().cloned().collect::<Vec<_>>().join(","));
         let v = &want_items;
+        let num = |t: &str| t.parse::<usize>().unwrap();
+        let two = |t: &str| { let (a, b) = t.split_once('x').unwrap(); (num(a), num(b)) };
         let want = match adaptor {
+            a if generic && a.starts_with("nb") => o(v.iter().nth_back(num(&a[2..]))),
+            a if generic && a.starts_with("nn") => { let (k1, k2) = two(&a[2..]); format!("{};{}", o(v.get(k1)), o(v.get(k1 + 1 + k2))) }
+            a if generic && a.starts_with('n') => o(v.get(num(&a[1..]))),
+            a if generic && a.starts_with("ss") => { let (k1, k2) = two(&a[2..]); l(v.iter().skip(k1).step_by(k2).collect()) }
             "n1" => o(v.iter().nth(1)), "nb1" => o(v.iter().nth_back(1)), "ss" => l(v.iter().skip(1).step_by(2).collect()), "tr" => l(v.iter().take(2).rev().collect()),
             "rs" => l(v.iter().rev().skip(1).collect()), "last" => o(v.iter().last()), "count" => v.len().to_string(), _ => l(v.iter().collect()),
         };
